@@ -88,6 +88,16 @@ pub fn gen(prop: &str, seed: u64, index: u64, _tier: Tier) -> Case {
         src_paths.push(path.clone());
         let mut lines: Vec<String> = vec!["begin".into()];
         match variant {
+            "stdout" if rng.chance(1, 3) => {
+                // a command above the dependency line that prints the dependency's output: what
+                // counts is what it prints when the file is finally built (the dependency is
+                // complete by then), not what an earlier pass saw
+                let payload = format!("payload {i} {}\n", rng.below(100000));
+                p.add_file(&join(&dir, &format!("dep{i}.txt.txtpp")), B(payload.clone().into_bytes()));
+                lines.push(format!("-TXTPP#run cat 'dep{i}.txt' 2>/dev/null || true"));
+                lines.push(format!("TXTPP#after dep{i}.txt"));
+                params.insert(format!("stdout_text.{path}"), payload);
+            }
             "stdout" => {
                 // more than a read buffer of multi-byte characters, at every alignment
                 let pad = rng.below(4);
@@ -217,7 +227,7 @@ pub fn gen(prop: &str, seed: u64, index: u64, _tier: Tier) -> Case {
     if variant == "cli-guard" {
         params.insert(
             "txtpp_file_env".into(),
-            (*rng.pick(&["x", "/some/file.txtpp", " ", ""])).to_string(),
+            (*rng.pick(&["x", "/some/file.txtpp", " ", "", "caf\u{F7E9}.txt.txtpp", "\u{F7FF}"])).to_string(),
         );
     }
     let s = rng.next();
@@ -326,7 +336,8 @@ pub fn run(case: &Case, ctx: &mut Ctx) -> CaseOutcome {
         c.env_remove("TXTPP_FILE");
         let guard_val = case.params.get("txtpp_file_env").cloned();
         if let Some(v) = &guard_val {
-            c.env("TXTPP_FILE", v);
+            // U+F700+byte spells a byte that is not valid UTF-8 (tree::osp): the variable may hold any bytes
+            c.env("TXTPP_FILE", tree::osp(v).into_os_string());
         }
         c.arg("-q").arg("-r").arg("-j").arg(cfg.k.to_string());
         if !cfg.shell.is_empty() {
@@ -450,11 +461,18 @@ pub fn run(case: &Case, ctx: &mut Ctx) -> CaseOutcome {
         "stdout" => match &last.sim.verdict {
             Verdict::Ok => {
                 for s in &a.sources {
-                    let big = match case.params.get(&format!("stdout.{}", s.path)) {
-                        Some(b) => join(&s.dir, b),
-                        None => continue,
+                    let (big, data) = match (
+                        case.params.get(&format!("stdout.{}", s.path)),
+                        case.params.get(&format!("stdout_text.{}", s.path)),
+                    ) {
+                        (Some(b), _) => {
+                            let big = join(&s.dir, b);
+                            let data = case.project.file(&big).map(|d| d.0.clone()).unwrap_or_default();
+                            (big, data)
+                        }
+                        (None, Some(t)) => ("the dependency's output".to_string(), t.clone().into_bytes()),
+                        _ => continue,
                     };
-                    let data = case.project.file(&big).map(|d| d.0.clone()).unwrap_or_default();
                     let mut want = b"begin\n".to_vec();
                     want.extend_from_slice(&data);
                     want.extend_from_slice(b"end\n");
